@@ -10,11 +10,10 @@
     order) keeps `WFP` and `PadContent` — induction over the chain from `C08_reordering`,
     `C08_extend_content`, `C08_extend_mesh`;
   * `Produced` is reflexive, transitive and respected by the ladder's three operations;
-  * rectangular type blocks (`wfEq`) survive (`wfEq_of_padContent`).
+  * (rectangular type blocks survive: `wfEq_of_padContent`, in Lemmas/GlueLadderEq.lean).
 -/
 import FcProofs.Props.C08
 import FcProofs.Lemmas.C17
-import FcProofs.Lemmas.MeshEqual
 import FcModel.GlueLadder
 namespace Fc.Glue
 open Fc Fc.Spec
@@ -352,45 +351,6 @@ theorem produced_derived (P : SortParams) (hP : SortParamsOk P) (b a : MeshField
     (h : Produced P (some a) (some b)) : Derived b a := by
   obtain ⟨steps, e⟩ := h
   exact applyPubs_padContent P hP b steps b a 0 hb (PadContent.refl b) e.symm
-
-/-! ### rectangular type blocks survive (the hypothesis `wfEq` of the C03 theorems) -/
-
-theorem wfEq_of_padContent {k : Nat} {b a : MeshFields} (h : PadContent k b a) (hwa : WFP a)
-    (hwb : C03.wfEq b.mesh = true) : C03.wfEq a.mesh = true := by
-  rw [C03.wfEq_iff] at hwb ⊢
-  obtain ⟨_, hnd, hu⟩ := hwb
-  refine ⟨hwa.rows, hwa.types, ?_⟩
-  intro β hβ
-  apply C03.uniform_of_width β.2 (((b.mesh.cellsOf β.1).head?.map List.length).getD 0)
-  intro r hr
-  obtain ⟨c, hc, rfl⟩ := List.getElem_of_mem hr
-  -- the cell item of this row occurs in `a`'s content, hence (up to padding) in `b`'s
-  have hmem : (β.1, (β.2[c]).map fun p => a.mesh.points.getD p []) ∈
-      a.cellContent.map fun it => (it.ctype, it.corners) := by
-    apply List.mem_map.mpr
-    refine ⟨a.cellItem β.1 c (β.2.getD c []), ?_, ?_⟩
-    · unfold MeshFields.cellContent
-      apply List.mem_flatMap.mpr
-      exact ⟨β, hβ, List.mem_map.mpr ⟨c, List.mem_range.mpr hc, rfl⟩⟩
-    · simp [MeshFields.cellItem, List.getD_eq_getElem?_getD, List.getElem?_eq_getElem hc]
-  have hmem' := h.cells.subset hmem
-  obtain ⟨it, hit, heq⟩ := List.mem_map.mp hmem'
-  unfold MeshFields.cellContent at hit
-  obtain ⟨β', hβ', hit'⟩ := List.mem_flatMap.mp hit
-  obtain ⟨c', hc', rfl⟩ := List.mem_map.mp hit'
-  have hc'' : c' < β'.2.length := List.mem_range.mp hc'
-  simp only [MeshFields.cellItem, Prod.mk.injEq] at heq
-  obtain ⟨ht, hcor⟩ := heq
-  have hlen := congrArg List.length hcor
-  simp only [List.length_map] at hlen
-  have hrow : β'.2.getD c' [] ∈ b.mesh.cellsOf β.1 := by
-    rw [← ht, cellsOf_of_mem b.mesh hnd β' hβ', List.getD_eq_getElem?_getD,
-      List.getElem?_eq_getElem hc'']
-    exact List.getElem_mem hc''
-  have hU : C03.Uniform (b.mesh.cellsOf β.1) := by
-    rw [← ht, cellsOf_of_mem b.mesh hnd β' hβ']; exact hu β' hβ'
-  rw [← hlen]
-  exact hU _ hrow
 
 /-! ### the guarded C02 point sorter satisfies C08's `SortParamsOk` on every mesh -/
 
